@@ -961,8 +961,7 @@ def check_pynode_sigs(ctx, nodes, count=True):
     for sig, idents in by_sig.items():
         if len(idents) > 1:
             a, b = sorted(idents)[:2]
-            # F41: container-valued plain (unhashed) arguments are merged into a PythonNode that gets no node_info
-            fid = "F41" if all(not info[i]["has_info"] and not info[i]["hash"] for i in idents) else None
+            fid = None      # F41 (merged container-valued plain arguments without node_info) is repaired: 91d0d18
             ctx.violation(f"pynode-merge: the python-value arguments {a[1]}::{a[2]}({a[4]}{list(a[5])}) in ./{a[0]} and {b[1]}::{b[2]}({b[4]}{list(b[5])}) in ./{b[0]} "
                           f"are different arguments but one DAG node (one signature)", {"stream": "pynodesig", "a": list(a), "b": list(b)}, finding=fid)
             if fid is None:
